@@ -98,6 +98,20 @@ func (m *monitors) want(p string) bool {
 
 // swapNote marks violations observed in a history that contains a node swap: the swap
 // election protocol has known gaps (known_findings.json), other histories do not.
+// pastLeaders lists the nodes that have been sent BecomeLeader for the shard so far.  Takes mu.
+func (m *monitors) pastLeaders(shard int64) []string {
+	m.mu.Lock()
+	defer m.mu.Unlock()
+	var out []string
+	for n, per := range m.leadAt {
+		if len(per[shard]) > 0 {
+			out = append(out, n)
+		}
+	}
+	sort.Strings(out)
+	return out
+}
+
 func (m *monitors) swapNote() string {
 	if m.c.swaps.Load() > 0 {
 		return " [history includes a node swap]"
@@ -244,6 +258,9 @@ func (m *monitors) tap(t *TapMsg) {
 		m.clearFence(t.Dst, req.Shard, req.Term)
 		if t.Src == "coord" {
 			m.checkBecomeLeader(t.Dst, req, m.blResp[t.CallID])
+		}
+		if m.c.o.CheckLinearizability {
+			m.c.probeDuringElection(t.Dst, req.Shard, req.Term)
 		}
 	case t.Kind == "req" && strings.HasSuffix(meth, "/DeleteShard"):
 		req := &proto.DeleteShardRequest{}
